@@ -59,6 +59,15 @@ type Env struct {
 	setupErr        string
 }
 
+//go:norace
+func (env *Env) setRootClosed() { env.rootClosed = true }
+
+//go:norace
+func (env *Env) isRootClosed() bool { return env.rootClosed }
+
+//go:norace
+func (env *Env) noteSlow() { env.Probes.SlowCalls++ }
+
 // Violation is a property violation found by an oracle.
 type Violation struct {
 	Class string // stable identifier of the kind of violation (used by the shrinker)
@@ -266,7 +275,7 @@ func (env *Env) setup() error {
 // teardown ends library goroutines so that the bubble can finish; nothing that
 // happens here is part of the checked history.
 func (env *Env) teardown() {
-	env.Log.Ops = append(env.Log.Ops, &OpRec{Task: -3, Op: &Op{K: "teardown"}, Inv: env.Log.Next()})
+	env.Log.addOp(&OpRec{Task: -3, Op: &Op{K: "teardown"}, Inv: env.Log.Next()})
 	defer func() { recover() }()
 	if env.RootCloser != nil {
 		env.RootCloser.Close()
